@@ -173,18 +173,20 @@ func H_idMeaning(msg, nm int) {
 // ---- placeholder names ----
 
 var c10Msgs = []string{
-	"{$a}{$a}{$b}",                                           // 0 equal expressions share one name
-	"{$a.x}{$b.x}{$a.x}",                                     // 1 same base name, distinct placeholders
-	"{$a.x}{$b.x}{$c.x}{$d.x}",                               // 2 four distinct with one base name
-	"<a href=\"x\">{$fooBar}</a><br/>{$foo_bar}",             // 3 tags and case conversion
-	"{plural $n}{case 1}one {$n}{default}{$n} many{/plural}", // 4
-	"{f($a)}{$a + 1}{$a[0]}{$b.x}",                           // 5 XXX fallbacks
-	"{$a.x}{$b.y}{$c.x}{$d.y}",                               // 6 two colliding groups
-	"<b>{$a}</b> <b>x</b>{$foo2bar}",                         // 7 repeated tags
-	"{$a.x}{$b.x}{$x_1}",                                     // 8 suffixed name collides with another base name
-	"{$x_1}{$a.x}{$b.x}",                                     // 9 the same, other order
-	"{$a|escapeUri}{$a}{$a|id}{$a}",                          // 10 one expression under different directives: distinct placeholders
-	"<a href=\"x\">{$a}</a> <a href=\"y\">{$b}</a>",          // 11 two link tags that differ in an attribute
+	"{$a}{$a}{$b}",                                                 // 0 equal expressions share one name
+	"{$a.x}{$b.x}{$a.x}",                                           // 1 same base name, distinct placeholders
+	"{$a.x}{$b.x}{$c.x}{$d.x}",                                     // 2 four distinct with one base name
+	"<a href=\"x\">{$fooBar}</a><br/>{$foo_bar}",                   // 3 tags and case conversion
+	"{plural $n}{case 1}one {$n}{default}{$n} many{/plural}",       // 4
+	"{f($a)}{$a + 1}{$a[0]}{$b.x}",                                 // 5 XXX fallbacks
+	"{$a.x}{$b.y}{$c.x}{$d.y}",                                     // 6 two colliding groups
+	"<b>{$a}</b> <b>x</b>{$foo2bar}",                               // 7 repeated tags
+	"{$a.x}{$b.x}{$x_1}",                                           // 8 suffixed name collides with another base name
+	"{$x_1}{$a.x}{$b.x}",                                           // 9 the same, other order
+	"{$a|escapeUri}{$a}{$a|id}{$a}",                                // 10 one expression under different directives: distinct placeholders
+	"<a href=\"x\">{$a}</a> <a href=\"y\">{$b}</a>",                // 11 two link tags that differ in an attribute
+	"{$a|truncate:5} is short for {$a|truncate:40}{$a|truncate:5}", // 12 one directive with different arguments
+	"{$a.b}{$a?.b}{$a['b']}{$a.b}",                                 // 13 access styles of one field
 }
 
 // wellDefined: messages on which the official algorithm gives every placeholder a name
